@@ -992,7 +992,18 @@ class XandikosBackend(webdav.Backend):
     def _mark_as_principal(self, path):
         self._user_principals.add(posixpath.normpath(path))
 
+    @staticmethod
+    def _in_control_dir(relpath):
+        # The control directory of a git store is not part of the DAV
+        # namespace: it must not be served, written to or removed as if it
+        # were a (bare git) collection of its own.
+        return any(
+            segment.lower() == GIT_PATH for segment in relpath.split(posixpath.sep)
+        )
+
     def create_collection(self, relpath):
+        if self._in_control_dir(posixpath.normpath(relpath)):
+            raise FileNotFoundError(relpath)
         p = self._map_to_file_path(relpath)
         return Collection(self, relpath, TreeGitStore.create(p))
 
@@ -1012,6 +1023,8 @@ class XandikosBackend(webdav.Backend):
             raise ValueError("relpath %r should start with /")
         if relpath == "/":
             return RootPage(self)
+        if self._in_control_dir(relpath):
+            return None
         p = self._map_to_file_path(relpath)
         if p is None:
             return None
